@@ -18,7 +18,7 @@ func ParseLocality(eventData []byte) (uint8, error) {
 	descrWords := bytes.SplitN(eventData, []byte{0}, 2)
 	switch {
 	case bytes.Equal(descrWords[0], []byte("StartupLocality")):
-		if len(descrWords) > 0 && len(descrWords[1]) == 1 {
+		if len(descrWords) > 1 && len(descrWords[1]) == 1 {
 			return descrWords[1][0], nil
 		}
 	}
